@@ -770,20 +770,20 @@ const c09Rule = "four generated families over the 8 (suite, signature group) com
 func TestC09_BLS(t *testing.T) {
 	ev := evFor("C09")
 	ev.Rule(c09Rule)
-	rcheck(t, 250, 8000, func(t *rapid.T) { c09BLS(t, ev) })
+	rcheck(t, 250, 48000, func(t *rapid.T) { c09BLS(t, ev) })
 }
 
 func TestC09_TBLS(t *testing.T) {
 	ev := evFor("C09")
-	rcheck(t, 120, 4000, func(t *rapid.T) { c09TBLS(t, ev) })
+	rcheck(t, 120, 24000, func(t *rapid.T) { c09TBLS(t, ev) })
 }
 
 func TestC09_BDN(t *testing.T) {
 	ev := evFor("C09")
-	rcheck(t, 160, 5000, func(t *rapid.T) { c09BDN(t, ev) })
+	rcheck(t, 160, 30000, func(t *rapid.T) { c09BDN(t, ev) })
 }
 
 func TestC09_CoSi(t *testing.T) {
 	ev := evFor("C09")
-	rcheck(t, 500, 15000, func(t *rapid.T) { c09CoSi(t, ev) })
+	rcheck(t, 500, 90000, func(t *rapid.T) { c09CoSi(t, ev) })
 }
